@@ -1,6 +1,7 @@
 import IbicusModel.Props.C10
 import IbicusModel.Lemmas.GenDebiasers
 import IbicusModel.Lemmas.GenIsimipFreq
+import IbicusModel.Lemmas.GenIsimipVars
 -- property theorems
 #print axioms Props.C10.step5_bounded_in_range
 #print axioms Props.C10.step5_in_range
@@ -33,6 +34,23 @@ import IbicusModel.Lemmas.GenIsimipFreq
 #print axioms Props.C10.qdm_zero_or_ge
 #print axioms Props.C10.qdm_years_zero_or_ge
 #print axioms Props.C10.qdm_relative_nonneg
+-- round 4: end-to-end statements (every bounded variable, sessions, every day assigned, CDFt / QDM through the windows)
+#print axioms Props.C10.rsds_location_months_nonneg
+#print axioms Props.C10.step6_good_of_pseudo
+#print axioms Props.C10.bounded_variables_wellformed
+#print axioms Props.C10.bounded_variable_window_in_bounds_no_gap
+#print axioms Props.C10.bounded_variable_step6_total
+#print axioms Props.C10.session_each_apply_judged_by_current_settings
+#print axioms Props.C10.session_settings
+#print axioms Props.C10.zero_or_ge_of_valid
+#print axioms Props.C10.location_rw_every_day_valid
+#print axioms Props.C10.location_months_every_day_valid
+#print axioms Props.C10.location_rw_pr_zero_or_ge
+#print axioms Props.C10.cdft_ssr_subsample_zero_or_ge
+#print axioms Props.C10.cdft_ssr_location_rw_zero_or_ge
+#print axioms Props.C10.cdft_ssr_location_rw_years_zero_or_ge
+#print axioms Props.C10.qdm_location_rw_years_zero_or_ge
+#print axioms Props.C10.qdm_location_rw_zero_or_ge
 -- load-bearing lemmas: what step 6 writes, the lift through the write-back loops, totality (non-vacuity), the witness family
 #print axioms Lemmas.C10.Good.inBounds_noGap
 #print axioms Lemmas.C10.adjustBetween_spec
@@ -51,3 +69,7 @@ import IbicusModel.Lemmas.GenIsimipFreq
 #print axioms Lemmas.GenIsimipFreq.get_P_obs_future
 #print axioms Lemmas.GenIsimipFreq.get_nr_of_entries_to_set_to_bound
 #print axioms Lemmas.GenIsimipFreq.scale_nr_of_entries_to_set_to_bounds
+#print axioms Lemmas.GenIsimipVars.bounded_variables_eq
+#print axioms Lemmas.GenIsimipVars.bounded_variables_complete
+#print axioms Lemmas.C10.run_result
+#print axioms Lemmas.C10.ssrThreshold_subsample
